@@ -80,6 +80,20 @@ def run_case(case):
     elif kill == "major":
         orig["major"] = aldy.major.solve_major_model
         aldy.major.solve_major_model = lambda *a, **k: []
+    elif kill == "major-first":
+        # only the FIRST structure handed to the major stage has no admissible allele combination; the others are solved normally
+        orig["major"] = aldy.major.solve_major_model
+        first_cn = []
+
+        def first_empty(gene_, cov_, cn_sol, *a, **k):
+            key = tuple(sorted(cn_sol.solution.items()))
+            if not first_cn:
+                first_cn.append(key)
+            if key == first_cn[0]:
+                return []
+            return orig["major"](gene_, cov_, cn_sol, *a, **k)
+
+        aldy.major.solve_major_model = first_empty
     elif kill == "minor":
         orig["minor"] = aldy.minor.solve_minor_model
         aldy.minor.solve_minor_model = lambda *a, **k: []
@@ -103,6 +117,22 @@ def run_case(case):
     text = open(outpath).read()
     sols = [s for v in (res or {}).values() for s in v]
 
+    if kill == "major-first":
+        others = any(call["result"] for call in rec.get("major", []))
+        if not others and rec.get("cn") and first_cn:
+            # the run may have ended before the other structures were tried: ask the major stage directly (patch already undone)
+            c0 = rec["cn"][0]
+            for obj, (cnd, sc) in zip(c0["objects"], c0["result"]):
+                if tuple(sorted(cnd.items())) != first_cn[0] and rec["original"]["estimate_major"](c0["gene"], c0["coverage"], obj, "cbc"):
+                    others = True
+                    break
+        labels.append("first-structure-without-major-solution:" + ("others-have" if others else "alone"))
+        if others:
+            if exc is not None and STAGE_MSG["major"].lower() in str(exc).lower():
+                return Result([V("run-aborted-although-another-structure-has-major-solutions", message=str(exc)[:200])], labels, True)
+            kill = "none"  # judged by the recomputation below (the first structure simply contributes nothing)
+        else:
+            kill = "major"
     if kill != "none":
         applicable = not (kill == "cn" and not gene.do_copy_number)
         if applicable:
@@ -250,7 +280,7 @@ def strategy(tier):
                           min_size=1, max_size=5),
         "gap": st.sampled_from([0, 0.1, 0.3, 0.3]),
         "mms": st.sampled_from([1] * 10 + [2, 3]) if tier == "quick" else st.sampled_from([1, 1, 2, 3]),
-        "kill": st.sampled_from(["none"] * 7 + ["cn", "major", "minor"]),
+        "kill": st.sampled_from(["none"] * 7 + ["cn", "major", "minor", "major-first", "major-first"]),
         "sim_seed": st.integers(0, 10 ** 6),
     })
 
